@@ -247,6 +247,70 @@ func needDerivedVar(f *a.Func, name t.ID) bool {
 	return found
 }
 
+// CGenIssues lists the shapes in the program for which the C generator of the
+// tree under test is known to fail or to emit C that does not compile (the
+// program is accepted by the checker and has a defined meaning, which the
+// interpreter follows; RunC reports C11 events for it). Callers use it to
+// keep such programs out of trace comparisons.
+func (p *Program) CGenIssues() []string {
+	var issues []string
+	tm := p.tm
+	seen := map[string]bool{}
+	add := func(s string) {
+		if !seen[s] {
+			seen[s] = true
+			issues = append(issues, s)
+		}
+	}
+	for _, n := range p.file.TopLevelDecls() {
+		if n.Kind() != a.KFunc {
+			continue
+		}
+		f := n.AsFunc()
+		fi := p.funcs[t.QID{f.Receiver()[1], f.FuncName()}]
+		if fi == nil {
+			continue
+		}
+		if fi.invalidC {
+			add("pub-noncoroutine-result-with-checked-arg")
+		}
+		if fi.pub && fi.out != nil && fi.out.IsBool() {
+			add("pub-func-returning-bool")
+		}
+		n.Walk(func(q *a.Node) error {
+			if q.Kind() != a.KExpr {
+				return nil
+			}
+			e := q.AsExpr()
+			switch e.Operator() {
+			case t.IDXBinaryTildeSatPlus, t.IDXBinaryTildeSatMinus:
+				if mt := e.MType(); mt != nil && mt.IsSmallInteger() {
+					add("binary-sat-on-small-integer")
+				}
+			case t.IDOpenParen:
+				recv, meth, args, ok := e.IsMethodCall()
+				if !ok || recv.MType() == nil {
+					return nil
+				}
+				name := meth.Str(tm)
+				switch {
+				case recv.MType().IsEitherSliceType() && name == "prefix":
+					add("slice-prefix")
+				case recv.MType().IsIOType() && e.Effect().Coroutine() &&
+					strings.HasPrefix(name, "write_u") && name != "write_u8":
+					add("writer-question-method")
+				case recv.MType().IsIOType() && name == "limited_copy_u32_from_reader" && len(args) == 2:
+					if id := args[1].AsArg().Value().IsArgsDotFoo(); id != 0 && !fi.derivedArgs[id] {
+						add("io-arg-only-used-as-builtin-arg")
+					}
+				}
+			}
+			return nil
+		})
+	}
+	return issues
+}
+
 // numTypeOf returns the range description of a numeric (or bool) type.
 func (p *Program) numTypeOf(typ *a.TypeExpr) *numType {
 	if typ == nil {
